@@ -621,23 +621,20 @@ func (o *FilterOptimizer) unionPrefix(l, r *ScanType) *ScanType {
 }
 
 func inRange(start, end, val []byte, isEnd bool) bool {
-	if start == nil && end != nil {
-		if val == nil && !isEnd {
-			return true
-		} else if val == nil && isEnd {
-			return false
+	if val == nil {
+		// nil is an open boundary: the smallest start or the greatest end
+		if isEnd {
+			return end == nil
 		}
-		return bytes.Compare(end, val) >= 0
+		return start == nil
 	}
-	if start != nil && end == nil {
-		if val == nil && !isEnd {
-			return false
-		} else if val == nil && isEnd {
-			return true
-		}
-		return bytes.Compare(start, val) <= 0
+	if start != nil && bytes.Compare(start, val) > 0 {
+		return false
 	}
-	return bytes.Compare(start, val) <= 0 && bytes.Compare(end, val) >= 0
+	if end != nil && bytes.Compare(end, val) < 0 {
+		return false
+	}
+	return true
 }
 
 func (o *FilterOptimizer) intersectionRange(l, r *ScanType) *ScanType {
@@ -752,11 +749,11 @@ func (o *FilterOptimizer) unionRange(l, r *ScanType) *ScanType {
 		nstart = rstart
 		nend = rend
 	} else if !inRange(lstart, lend, rstart, false) && !inRange(lstart, lend, rend, true) {
-		if inRange(lstart, rstart, lend, true) {
+		if lend != nil && rstart != nil && bytes.Compare(lend, rstart) < 0 {
 			// | LS | LE | RS | RE |
 			nstart = lstart
 			nend = rend
-		} else if inRange(rstart, lstart, rend, true) {
+		} else {
 			// | RS | RE | LS | LE |
 			nstart = rstart
 			nend = lend
